@@ -66,33 +66,7 @@ def check(ctx, rep):
     lc = sorted(set(k for k, _ in callers.get(loop.key, set())))
     rep.ob("R-SINGLE", "the poll loop is not called directly", not lc, "callers: %s" % lc, where_of(loop))
 
-    # ---- R-SNAPSHOT
-    ps, it = ctx.paths(rpf, pex, depth=0)
-    kinds = set()
-    for p in ps:
-        ucalls = [e for e in p.calls() if e.d.get("user")]
-        rep.require(len(ucalls) == 1, "_run_poll_fn: expected exactly one poll function call per path")
-        u = ucalls[0]
-        arg = u.d["args"][0] if len(u.d["args"]) == 1 else None
-        ok = isinstance(arg, tuple) and arg[0] == "comp" and arg[3] == (DESCS,) and not arg[4] and len(arg[2]) == 1 and arg[2][0][:1] == ("unpack",) and arg[2][0][2] == 1
-        rep.ob("R-SNAPSHOT", "_run_poll_fn: the poll function receives the descriptor of every registered entry", ok, "poll_fn(%s)" % (fmt(arg) if arg else None), where_of(rpf, u.node), trace_of(p))
-        # snapshot evaluated under the lock: the comprehension's loop event
-        comp_loops = [e for e in p.evs("loop") if e.d[0] == "enter" and e.d[1] == DESCS]
-        rep.ob("R-SNAPSHOT", "_run_poll_fn: snapshot taken under the executor lock", bool(comp_loops) and q.has_lock(comp_loops[0], XL), "", where_of(rpf))
-        rep.ob("R-SNAPSHOT", "_run_poll_fn: the poll function runs outside the executor lock", not q.has_lock(u, XL), "user poll function called with self._lock held: yields deadlock against registration/deregistration and block every submitter", where_of(rpf, u.node))
-        caught = p.evs("catch")
-        if caught:
-            kinds.add("raised")
-            ys = [e for e in p.calls() if q.call_name(e) == "yield_exception"]
-            ok = len(ys) == 1 and isinstance(q.recv(ys[0]), tuple) and q.recv(ys[0])[0] == "elem" and q.recv(ys[0])[1] == arg and ys[0].d["args"][:1] == (caught[0].d["exc"],)
-            rep.ob("R-SNAPSHOT", "_run_poll_fn: a raising poll function fails exactly the futures it was shown, with its exception", ok, "yield_exception on %s with %s" % ([fmt(q.recv(e)) for e in ys], [fmt(e.d["args"][0]) for e in ys if e.d["args"]]), where_of(rpf), trace_of(p))
-            rep.ob("R-SNAPSHOT", "_run_poll_fn: handler catches Exception", caught[0].d["names"] in (["Exception"], None), "catches %s" % caught[0].d["names"], where_of(rpf))
-            rep.ob("R-SNAPSHOT", "_run_poll_fn does not raise", p.status == "return", "status %s" % p.status, where_of(rpf))
-        elif p.status == "return":
-            kinds.add("returned")
-            res = ("call", u.d["func"], u.d["args"], u.d["kwargs"], None)
-            rep.ob("R-SNAPSHOT", "_run_poll_fn returns the poll function's value (next interval)", p.value == res, "returns %s" % fmt(p.value), where_of(rpf))
-    rep.require(kinds == {"raised", "returned"}, "_run_poll_fn: expected returning and raising paths")
+    snapshot_rule(ctx, rep)
     ps, it = ctx.paths(loop, None, depth=0)
     for p in ps:
         waits = [e for e in p.calls() if q.call_name(e) == "wait"]
@@ -280,6 +254,43 @@ def check(ctx, rep):
     loops = [l for l in wake.discover(ctx) if l.owner is pex]
     wake.check_loops(ctx, rep, loops)
     wake.check_producers(ctx, rep, loops)
+
+
+def snapshot_rule(ctx, rep):
+    prog = ctx.prog
+    pex = prog.cls("PollExecutor")
+    SELF = ("param", "self")
+    XL = ("attr", SELF, "_lock")
+    DESCS = ("attr", SELF, "_poll_descriptors")
+    rpf = pex.methods.get("_run_poll_fn")
+    rep.rule("R-SNAPSHOT", "_run_poll_fn: descriptors := [d for (_, d) in self._poll_descriptors] under self._lock; poll_fn(descriptors) outside it; on exception each descriptor of *that* list gets yield_exception(<the caught exception>); the result of poll_fn is returned")
+    # ---- R-SNAPSHOT
+    ps, it = ctx.paths(rpf, pex, depth=0)
+    kinds = set()
+    for p in ps:
+        ucalls = [e for e in p.calls() if e.d.get("user")]
+        rep.require(len(ucalls) == 1, "_run_poll_fn: expected exactly one poll function call per path")
+        u = ucalls[0]
+        arg = u.d["args"][0] if len(u.d["args"]) == 1 else None
+        ok = isinstance(arg, tuple) and arg[0] == "comp" and arg[3] == (DESCS,) and not arg[4] and len(arg[2]) == 1 and arg[2][0][:1] == ("unpack",) and arg[2][0][2] == 1
+        rep.ob("R-SNAPSHOT", "_run_poll_fn: the poll function receives the descriptor of every registered entry", ok, "poll_fn(%s)" % (fmt(arg) if arg else None), where_of(rpf, u.node), trace_of(p))
+        # snapshot evaluated under the lock: the comprehension's loop event
+        comp_loops = [e for e in p.evs("loop") if e.d[0] == "enter" and e.d[1] == DESCS]
+        rep.ob("R-SNAPSHOT", "_run_poll_fn: snapshot taken under the executor lock", bool(comp_loops) and q.has_lock(comp_loops[0], XL), "", where_of(rpf))
+        rep.ob("R-SNAPSHOT", "_run_poll_fn: the poll function runs outside the executor lock", not q.has_lock(u, XL), "user poll function called with self._lock held: yields deadlock against registration/deregistration and block every submitter", where_of(rpf, u.node))
+        caught = p.evs("catch")
+        if caught:
+            kinds.add("raised")
+            ys = [e for e in p.calls() if q.call_name(e) == "yield_exception"]
+            ok = len(ys) == 1 and isinstance(q.recv(ys[0]), tuple) and q.recv(ys[0])[0] == "elem" and q.recv(ys[0])[1] == arg and ys[0].d["args"][:1] == (caught[0].d["exc"],)
+            rep.ob("R-SNAPSHOT", "_run_poll_fn: a raising poll function fails exactly the futures it was shown, with its exception", ok, "yield_exception on %s with %s" % ([fmt(q.recv(e)) for e in ys], [fmt(e.d["args"][0]) for e in ys if e.d["args"]]), where_of(rpf), trace_of(p))
+            rep.ob("R-SNAPSHOT", "_run_poll_fn: handler catches Exception", caught[0].d["names"] in (["Exception"], None), "catches %s" % caught[0].d["names"], where_of(rpf))
+            rep.ob("R-SNAPSHOT", "_run_poll_fn does not raise", p.status == "return", "status %s" % p.status, where_of(rpf))
+        elif p.status == "return":
+            kinds.add("returned")
+            res = ("call", u.d["func"], u.d["args"], u.d["kwargs"], None)
+            rep.ob("R-SNAPSHOT", "_run_poll_fn returns the poll function's value (next interval)", p.value == res, "returns %s" % fmt(p.value), where_of(rpf))
+    rep.require(kinds == {"raised", "returned"}, "_run_poll_fn: expected returning and raising paths")
 
 
 def _pd_init(callee, ev, path):
